@@ -1425,6 +1425,18 @@ pub fn case_variant_strings() -> Vec<Input> {
     v
 }
 
+/// reserved-looking words other brokers use in front of topics: none of them means anything to this codec, so a name or
+/// filter that starts with one is an ordinary one (not shared, not a system topic)
+pub fn vendor_prefix_strings() -> Vec<Input> {
+    let mut v = Vec::new();
+    for p in ["$queue/", "$queue", "$local/", "$exclusive/", "$delayed/10/", "$oshare/g/", "$aws/things/", "$events/", "$retained/", "$share$/g/", "$sys/", "$Sys/", "$shared/g/", "$share-g/", "$SYS-x/", "queue/", "$/"] {
+        for tail in ["jobs", "g/t", "", "t/#", "+/t", "$SYS/x", "$share/g/t"] {
+            v.push(Input::Text(format!("{}{}", p, tail).into_bytes()));
+        }
+    }
+    v
+}
+
 /// nums = [first code point, count, which (16 / 17 / 18)]
 fn lookalike_block(input: &Input, ctx: &mut Ctx) -> CaseResult {
     let n = input.nums();
@@ -1528,6 +1540,7 @@ pub fn run_c16(env: &mut Env) -> RunResult {
     env.run_enum(C16_LOOKALIKE, CP_BLOCKS, true, |i| Input::Nums(vec![i * CP_BLOCK, CP_BLOCK, 16]))?;
     env.require("c16.prefix-lookalikes", "look-alike-strings");
     env.run_inputs(C16_SINGLE, &case_variant_strings())?;
+    env.run_inputs(C16_SINGLE, &vendor_prefix_strings())?;
     env.run_enum(C16_CODEPOINTS, CP_BLOCKS, true, |i| Input::Nums(vec![i * CP_BLOCK, CP_BLOCK]))?;
     env.require("c16.codepoints", "valid");
     env.require("c16.codepoints", "invalid");
@@ -1567,6 +1580,8 @@ pub fn run_c17(env: &mut Env) -> RunResult {
     env.run_enum(C17_LOOKALIKE, CP_BLOCKS, true, |i| Input::Nums(vec![i * CP_BLOCK, CP_BLOCK, 17]))?;
     let cv: Vec<Input> = case_variant_strings().into_iter().filter(|i| std::str::from_utf8(i.bytes()).map(specpred::filter_valid).unwrap_or(false)).collect();
     env.run_inputs(C17_SINGLE, &cv)?;
+    let vp: Vec<Input> = vendor_prefix_strings().into_iter().filter(|i| std::str::from_utf8(i.bytes()).map(specpred::filter_valid).unwrap_or(false)).collect();
+    env.run_inputs(C17_SINGLE, &vp)?;
     env.run_enum(C17_CODEPOINTS, CP_BLOCKS, true, |i| Input::Nums(vec![i * CP_BLOCK, CP_BLOCK]))?;
     env.require("c17.codepoints", "shared-filters");
     let nb = nested_blocks(FILTER_ALPHA.len(), FILTER_PREFIXES.len(), env.tier.sel(3, 4));
@@ -1594,6 +1609,7 @@ pub fn run_c18(env: &mut Env) -> RunResult {
     env.run_inputs(C18_SINGLE, &deep_strings(false))?;
     env.run_enum(C18_LOOKALIKE, CP_BLOCKS, true, |i| Input::Nums(vec![i * CP_BLOCK, CP_BLOCK, 18]))?;
     env.run_inputs(C18_SINGLE, &case_variant_strings())?;
+    env.run_inputs(C18_SINGLE, &vendor_prefix_strings())?;
     env.run_enum(C18_CODEPOINTS, CP_BLOCKS, true, |i| Input::Nums(vec![i * CP_BLOCK, CP_BLOCK]))?;
     env.require("c18.codepoints", "valid");
     env.require("c18.codepoints", "invalid");
